@@ -176,6 +176,35 @@ fn v1_corruptions(base: &[u8]) -> Vec<Corruption> {
                 Expect::V1("HeaderTooLong"),
             );
         }
+        // ... and padded with multi-byte characters: over 107 bytes although not over 107 characters
+        for (pad, total_chars) in [("\u{e9}", 107usize), ("\u{20ac}", 100), ("\u{1f600}", 60)] {
+            let mut l = String::from_utf8_lossy(line).into_owned();
+            if l.len() == 13 {
+                l.push(' ');
+            }
+            // fill with ASCII up to the character budget minus a block of multi-byte characters
+            let extra = 3usize;
+            while l.chars().count() + extra + 2 < total_chars {
+                l.push('a');
+            }
+            for _ in 0..extra {
+                l.push_str(pad);
+            }
+            while l.len() + 2 < 108 {
+                l.push_str(pad);
+            }
+            l.push_str("\r\n");
+            push(
+                "length",
+                format!(
+                    "line padded to {} bytes / {} characters with multi-byte text",
+                    l.len(),
+                    l.chars().count()
+                ),
+                l.into_bytes(),
+                Expect::V1("HeaderTooLong"),
+            );
+        }
         // invalid UTF-8 inside the free text (byte entry points only)
         let bads: [&[u8]; 6] = [
             &[0xff],
@@ -306,7 +335,7 @@ impl Check for C12 {
     fn runs(&self, tier: Tier) -> u64 {
         match tier {
             Tier::Quick => 3_000 + 24 * 2,
-            Tier::Thorough => 1_500_000 + 24 * 400,
+            Tier::Thorough => 600_000 + 24 * 400,
         }
     }
     fn exhaustive(&self, _tier: Tier) -> bool {
